@@ -8,5 +8,5 @@ def run(c):
     c.assumptions.append('platform send replaced by a recording stub (VDm.send): done.invoke.<id> to #_scxml_<parent> is observed there')
     scset.run_set(c, only={205, 701, 204}, expect_step=(205, 701), expect_start=(211,))
     c.run_m('h_exit', expect_checks=(710, 711, 712, 713), expect_cover=(710,), only={710, 711, 712, 713}, bounds={'shapes': 'all 12', 'configuration': 'every legal one', 'parent session / report flag': 'both'})
-    for h in (['h_loop_s6', 'h_loop_s0'] if c.tier == 'quick' else ['h_loop_s6', 'h_loop_s0', 'h_loop_s1', 'h_loop_s7', 'h_loopf_s6']):
+    for h in (['h_loop_s6', 'h_loop_s0'] if c.tier == 'quick' else ['h_loop_s6', 'h_loop_s0', 'h_loop_s1', 'h_loop_s4', 'h_loop3_s0']):
         c.run_m(h, expect_checks=(302, 702, 703), expect_cover=(301,), only={302, 702, 703, 301}, env={'budget_is_hang': True}, bounds={'see': 'C03'})
